@@ -20,7 +20,7 @@ Section EagerProofs.
   Notation edecideE := (edecide zero fold getr before after false).
   Notation estepE := (estep_gen zero fold getr pre exec before after false).
   Notation eiterE := (eiterate zero fold getr pre exec before after false).
-  Notation ekey := (fun ev : @event V => fst (fst ev)).
+  Notation ekey := (@ev_key V).
   Notation info_okE := (info_ok zero before after).
 
   (* ---------- flat_map based projections distribute over cons ---------- *)
